@@ -156,6 +156,7 @@ def Frag (env : Env) : Expr → Prop
   | .field a => Frag env a
   | .call f as => PlainId f ∧ env.isVar f = false ∧ FragL env as
   | .list as => FragL env as
+  | .chunk _ a b d => Frag env a ∧ Frag env b ∧ Frag env d
   | _ => False
 def FragL (env : Env) : List Expr → Prop
   | [] => True
@@ -170,6 +171,7 @@ def fuelOf : Expr → Nat
   | .field a => fuelOf a + 4
   | .call _ as => fuelOfL as + 30
   | .list as => fuelOfL as + 30
+  | .chunk _ a b d => fuelOf a + fuelOf b + fuelOf d + 30
   | _ => 4
 def fuelOfL : List Expr → Nat
   | [] => 0
@@ -206,7 +208,10 @@ theorem prE_head (e : Expr) (h : Frag env e) : HeadNotRp (prE e) := by
   | key n => exact absurd h (by simp [Frag])
   | movie n => exact absurd h (by simp [Frag])
   | oprop n o => exact absurd h (by simp [Frag])
-  | chunk c a b d => exact absurd h (by simp [Frag])
+  | chunk c a b d =>
+    cases b with
+    | int n => cases n <;> simp [prE, HeadNotRp, kw]
+    | _ => simp [prE, HeadNotRp, kw]
 
 theorem kw_num (n : Nat) (k : String) : (Tok.num n).kw k = false := rfl
 theorem kw_p (x : P) (k : String) : (Tok.p x).kw k = false := rfl
@@ -310,6 +315,53 @@ theorem pE5_list (f : Nat) (t : Tok) (ts r1 r2 : List Tok) (e : Expr) (es : List
   · rename_i heq; injection heq with h _; exact absurd h ht2
   · simp only [h1]
     simp [h2]
+
+theorem kwtag_facts (c : ChunkKind) :
+    (Tok.id c.tag.toList).kw "the" = false ∧ (Tok.id c.tag.toList).kw "not" = false ∧ (Tok.id c.tag.toList).kw "sprite" = false
+      ∧ chunkOfSingular c.tag.toList = some c := by
+  cases c <;> decide
+
+theorem pE5_chunk1 (f : Nat) (c : ChunkKind) (X r1 r2 : List Tok) (a d : Expr)
+    (h1 : pLevel env f 1 X = some (a, Tok.id "of".toList :: r1)) (h2 : pE5 env f r1 = some (d, r2)) :
+    pE5 env (f + 3) (Tok.id c.tag.toList :: X) = some (.chunk c a (.int 0) d, r2) := by
+  obtain ⟨k1, k2, k3, k5⟩ := kwtag_facts c
+  have o1 : (Tok.id ['o', 'f']).kw "to" = false := by decide
+  have o2 : (Tok.id ['o', 'f']).kw "of" = true := by decide
+  simp only [pE5, k2, k3]
+  simp only [pSimple, k1, k5]
+  simp [pChunk, h1, o1, o2, h2]
+
+theorem pE5_chunk2 (f : Nat) (c : ChunkKind) (X r1 r2 r3 : List Tok) (a b d : Expr)
+    (h1 : pLevel env f 1 X = some (a, Tok.id "to".toList :: r1))
+    (h2 : pLevel env f 1 r1 = some (b, Tok.id "of".toList :: r2)) (h3 : pE5 env f r2 = some (d, r3)) :
+    pE5 env (f + 3) (Tok.id c.tag.toList :: X) = some (.chunk c a b d, r3) := by
+  obtain ⟨k1, k2, k3, k5⟩ := kwtag_facts c
+  have o1 : (Tok.id ['t', 'o']).kw "to" = true := by decide
+  have o2 : (Tok.id ['o', 'f']).kw "of" = true := by decide
+  simp only [pE5, k2, k3]
+  simp only [pSimple, k1, k5]
+  simp [pChunk, h1, o1, o2, h2, h3]
+
+theorem binOfTok_of (l : Nat) : binOfTok l (Tok.id "of".toList) = none := by
+  match l with
+  | 0 => rfl
+  | 1 => rfl
+  | 2 => decide
+  | 3 => rfl
+  | 4 => decide
+  | n + 5 => simp [binOfTok]
+
+theorem binOfTok_to (l : Nat) : binOfTok l (Tok.id "to".toList) = none := by
+  match l with
+  | 0 => rfl
+  | 1 => rfl
+  | 2 => decide
+  | 3 => rfl
+  | 4 => decide
+  | n + 5 => simp [binOfTok]
+
+theorem follow_of (lvl : Nat) (r : List Tok) : Follow lvl (Tok.id "of".toList :: r) := fun l _ => binOfTok_of l
+theorem follow_to (lvl : Nat) (r : List Tok) : Follow lvl (Tok.id "to".toList :: r) := fun l _ => binOfTok_to l
 
 mutual
 /-- the level-5 reader inverts the printer on the fragment -/
@@ -432,7 +484,33 @@ theorem rp_e5 : ∀ (e : Expr), Frag env e → ∀ (rest : List Tok), NoLp rest 
   | .key _, h, _, _, _, _ => absurd h (by simp [Frag])
   | .movie _, h, _, _, _, _ => absurd h (by simp [Frag])
   | .oprop _ _, h, _, _, _, _ => absurd h (by simp [Frag])
-  | .chunk _ _ _ _, h, _, _, _, _ => absurd h (by simp [Frag])
+  | .chunk c a b d, h, rest, hn, F, hF => by
+    obtain ⟨ha, hb, hd⟩ : Frag env a ∧ Frag env b ∧ Frag env d := h
+    obtain ⟨f, rfl⟩ : ∃ f, F = f + 3 := ⟨F - 3, by simp [fuelOf] at hF; omega⟩
+    have hD : pE5 env f (prE d ++ rest) = some (d, rest) := rp_e5 d hd rest hn f (by simp [fuelOf] at hF; omega)
+    have hcase : b = .int 0 ∨ prE (.chunk c a b d) = Tok.id c.tag.toList :: prE a ++ Tok.id "to".toList :: prE b ++ Tok.id "of".toList :: prE d := by
+      cases b with
+      | int n => cases n with
+        | zero => exact Or.inl rfl
+        | succ m => exact Or.inr (by simp [prE, kw])
+      | _ => exact Or.inr (by simp [prE, kw])
+    rcases hcase with hb0 | hpr
+    · subst hb0
+      have hA : pLevel env f 1 (prE a ++ Tok.id "of".toList :: (prE d ++ rest)) = some (a, Tok.id "of".toList :: (prE d ++ rest)) :=
+        level_of_e5 env a (Tok.id "of".toList :: (prE d ++ rest)) (fuelOf a) (fun F' hF' => rp_e5 a ha _ (by simp [NoLp]) F' hF') 1 (by omega) (by omega)
+          (follow_of 1 _) f (by simp [fuelOf] at hF; omega)
+      have := pE5_chunk1 env f c _ _ rest a d hA hD
+      simpa [prE, kw] using this
+    · have hA : pLevel env f 1 (prE a ++ Tok.id "to".toList :: (prE b ++ Tok.id "of".toList :: (prE d ++ rest)))
+          = some (a, Tok.id "to".toList :: (prE b ++ Tok.id "of".toList :: (prE d ++ rest))) :=
+        level_of_e5 env a (Tok.id "to".toList :: (prE b ++ Tok.id "of".toList :: (prE d ++ rest))) (fuelOf a) (fun F' hF' => rp_e5 a ha _ (by simp [NoLp]) F' hF') 1 (by omega) (by omega)
+          (follow_to 1 _) f (by simp [fuelOf] at hF; omega)
+      have hB : pLevel env f 1 (prE b ++ Tok.id "of".toList :: (prE d ++ rest)) = some (b, Tok.id "of".toList :: (prE d ++ rest)) :=
+        level_of_e5 env b (Tok.id "of".toList :: (prE d ++ rest)) (fuelOf b) (fun F' hF' => rp_e5 b hb _ (by simp [NoLp]) F' hF') 1 (by omega) (by omega)
+          (follow_of 1 _) f (by simp [fuelOf] at hF; omega)
+      have := pE5_chunk2 env f c _ _ _ rest a b d hA hB hD
+      rw [hpr]
+      simpa using this
 /-- `, a, b` up to the closing parenthesis / bracket -/
 theorem rp_more : ∀ (es : List Expr), FragL env es → ∀ (c : Tok), (c = .p .rp ∨ c = .p .rb) → ∀ (rest : List Tok) (F : Nat), fuelOfL es + 1 ≤ F →
     pMore env F (prTail es ++ c :: rest) = some (es, c :: rest)
